@@ -237,6 +237,8 @@ def _plan(w, op):
         lo, hi = mech.value_range(key, default, is_state)
         if init == "float":
             init_v = uval(op["seed"], key + "init", 0, lo, hi)
+        elif init == "zero":
+            init_v = 0.0  # a switched-off conductance / a state of exactly zero is a value like any other
         elif init in ("list", "badlist"):
             # number of groups known only after grouping: compute from a dry run on a clone
             dry = ref.clone()
